@@ -224,9 +224,12 @@ func dumpVal(v reflect.Value, path string, out map[string]string, depth int) {
 		dumpVal(v.Elem(), path, out, depth+1)
 	case reflect.Struct:
 		if v.Type().String() == "time.Time" {
+			// raw representation: times built with time.Unix (the only kind an entry can
+			// produce) are normalised, so equal times have equal words; a wall-clock
+			// reading carries a monotonic part and differs between instances.
 			wall, ext := v.FieldByName("wall").Uint(), v.FieldByName("ext").Int()
 			if wall>>63 != 0 {
-				out[path] = "t:MONOTONIC"
+				out[path] = fmt.Sprintf("t:WALLCLOCK-READING(%d/%d)", wall, ext)
 				return
 			}
 			out[path] = fmt.Sprintf("t:%d.%09d", ext, wall&0x3fffffff)
